@@ -323,7 +323,7 @@ def gen_cmd(rnd, d=0, forms=None, newline_ws=False) -> Cmd:
 # G5c: macro models (C07)
 
 MACRO_ATOMS = ["x", "y1", "import", "if", "else", "lambda", "not", "in", "None", "1", "2.5", "0x1F", "+", "-", "*", "**", "=", "==", "!=", "<", ">=", "->", ":", ";", ".", "...", "@", "|", "&", "%", "~", "^",
-               "$X", "${x}", "$(ls -l)", "![echo hi]", "@(z)", "a?", "`*.py`", "&&", "||", "echo", "--flag", "a/b", "é", "export", "PATH", "'s'", '"t u"', "'a,b'", '"(x"', "')]'", 'r"\\d,"', "'''m'''", '"it\'s"', "b'q'"]
+               "$X", "${x}", "$(ls -l)", "![echo hi]", "@(z)", "a?", "`*.py`", "&&", "||", "echo", "--flag", "a/b", "é", "export", "PATH", "'s'", '"t u"', "'a,b'", '"(x"', "')]'", 'r"\\d,"', "'''m'''", '"it\'s"', "b'q'", 'f"v ({x})"', "f'{k}['", 'f"a,{b!r:>3}"', "f'{d[1]},'"]
 MACRO_OPEN = [("(", ")"), ("[", "]"), ("{", "}")]
 
 
@@ -337,7 +337,7 @@ def macro_arg(rnd, d=0, in_bracket=False) -> str:
         else:
             o, c = rnd.choice(MACRO_OPEN)
             inner = [macro_arg(rnd, d + 1, True) for _ in range(rnd.randint(0, 3))]
-            sep = rnd.choice([", ", ",", " , ", ",\n  ", ",  # c\n ", ", \\\n  "])
+            sep = rnd.choice([", ", ",", " , ", ",\n  ", ",  # c\n ", ", \\\n  ", ",  # see (\n ", ", # ] ,\n"])
             parts.append(o + sep.join(inner) + rnd.choice(["", "", ",", " "]) + c)
         if in_bracket and rnd.random() < 0.2:
             parts.append(",")
